@@ -395,6 +395,144 @@ def class_arms_at(body, i, fn_name, soft=False):
             die("%s: arm pattern %r is not a list of classes" % (fn_name, p))
     return out
 
+def match_arms_text(body, i):
+    """the arms of the `match` whose opening brace ends at `i`: [(pattern text, body text)]"""
+    arms, j = [], i
+    while True:
+        while j < len(body) and body[j] in " \n\t,":
+            j += 1
+        if j >= len(body):
+            raise ValueError("unterminated match")
+        if body[j] == "}":
+            return arms
+        d, k = 0, j
+        while k < len(body) and not (d == 0 and body.startswith("=>", k)):
+            if body[k] in "([{":
+                d += 1
+            elif body[k] in ")]}":
+                d -= 1
+                if d < 0:
+                    raise ValueError("pattern runs out of the match")
+            k += 1
+        if k >= len(body):
+            raise ValueError("no => after pattern")
+        pat = body[j:k].strip()
+        k += 2
+        while body[k] in " \n\t":
+            k += 1
+        if body[k] == "{":
+            d, st = 0, k
+            while True:
+                if body[k] == "{":
+                    d += 1
+                elif body[k] == "}":
+                    d -= 1
+                    if d == 0:
+                        break
+                k += 1
+            bod = body[st:k + 1]
+            k += 1
+        else:
+            d, st = 0, k
+            while True:
+                ch = body[k]
+                if ch in "([{":
+                    d += 1
+                elif ch in ")]}":
+                    if d == 0:
+                        break
+                    d -= 1
+                elif ch == "," and d == 0:
+                    break
+                k += 1
+            bod = body[st:k].strip()
+        arms.append((pat, bod))
+        j = k
+
+def split_top(s, sep):
+    out, d, cur = [], 0, ""
+    for ch in s:
+        if ch in "([{":
+            d += 1
+        elif ch in ")]}":
+            d -= 1
+        if ch == sep and d == 0:
+            out.append(cur)
+            cur = ""
+        else:
+            cur += ch
+    out.append(cur)
+    return [x.strip() for x in out]
+
+def decision_table(src, fn_name, fn_sig, scrut_re, arity, body_value, prefix_re="", extra_atoms=(), every=False):
+    """A `match` that is a pure decision table: every pattern an alternative list of `arity`-tuples (plain value for
+    arity 1) of class names / `true` / `false` / `_`, every arm body something `body_value` can read.  Returns
+    [([tuple of atoms, ...], value)].  The match is looked up by its scrutinee; if that was renamed or hoisted, the
+    first match of the function that reads as such a table (with at least two arms) is taken."""
+    body = find_fn(src, fn_name, fn_sig)
+    def read_at(i):
+        out = []
+        for pat, bod in match_arms_text(body, i):
+            alts = []
+            for alt in split_top(pat, "|"):
+                alt = alt.strip()
+                if arity > 1:
+                    if not (alt.startswith("(") and alt.endswith(")")):
+                        raise ValueError("not a tuple pattern: %r" % alt)
+                    atoms = split_top(alt[1:-1], ",")
+                else:
+                    atoms = [alt]
+                if len(atoms) != arity:
+                    raise ValueError("arity of %r" % alt)
+                atoms = [a.split("::")[-1].strip() for a in atoms]
+                for a in atoms:
+                    if a not in CLASSES and a not in ("true", "false", "_") and a not in extra_atoms:
+                        raise ValueError("atom %r" % a)
+                alts.append(tuple(atoms))
+            v = body_value(re.sub(r"\s+", " ", bod).strip())
+            if v is None:
+                raise ValueError("arm body %r" % bod)
+            out.append((alts, v))
+        return out
+    if every:
+        # every occurrence of the match must be the same table (the code repeats it); at least one must exist
+        tabs = []
+        for m in re.finditer(prefix_re + r"match\s+%s\s*\{" % scrut_re, body):
+            try:
+                tabs.append(read_at(m.end()))
+            except ValueError as e:
+                die("%s: `match %s` is not a decision table (%s)" % (fn_name, scrut_re.replace("\\", ""), e))
+        if not tabs:
+            die("%s: no `match %s` found" % (fn_name, scrut_re.replace("\\", "")))
+        if any(t != tabs[0] for t in tabs):
+            die("%s: the occurrences of `match %s` are not the same table" % (fn_name, scrut_re.replace("\\", "")))
+        return tabs[0]
+    m = re.search(prefix_re + r"match\s+%s\s*\{" % scrut_re, body)
+    if m:
+        try:
+            return read_at(m.end())
+        except ValueError as e:
+            die("%s: `match %s` is not a decision table any more (%s)" % (fn_name, scrut_re.replace("\\", ""), e))
+    for cand in re.finditer(r"match\s+[^{;]+?\{", body):
+        try:
+            t = read_at(cand.end())
+        except (ValueError, IndexError):
+            continue
+        if len(t) >= 2:
+            return t
+    die("%s: no decision table `match %s` found" % (fn_name, scrut_re.replace("\\", "")))
+
+def lean_atom(a):
+    if a in CLASSES:
+        return cls(a)
+    return a if a in ("_", "true", "false") else "OverrideStatus." + a
+
+def emit_table(name, params, scrut, table, ret, doc, val):
+    arms = []
+    for alts, v in table:
+        arms.append("  %s => %s" % (" ".join("| " + ", ".join(lean_atom(a) for a in alt) for alt in alts), val(v)))
+    return "/-- %s -/\ndef %s %s : %s :=\n  match %s with\n%s\n" % (doc, name, " ".join("(%s : %s)" % p for p in params), ret, ", ".join(scrut), "\n".join(arms))
+
 def main():
     lv = strip_comments(read("src/level.rs"))
     lines = []
@@ -479,6 +617,84 @@ def main():
         lines.append("/-- the class patterns of `match %s` in `%s`, arm by arm (`[]` = the catch-all arm) -/" % (scrut.replace("\\", ""), fn))
         lines.append("def %s : List (List UBidi.BidiClass) :=\n  [%s]" % (lean, ", ".join("[" + ", ".join(cls(c) for c in a) + "]" for a in arms)))
         lines.append("")
+    # decision tables of the rules (pure matches from classes to a class / an amount)
+    im = strip_comments(read("src/implicit.rs"))
+    C = "UBidi.BidiClass"
+    def class_or(names):
+        def f(b):
+            b = b.strip("{} ;")
+            b = b.split("::")[-1].strip()
+            if b in CLASSES:
+                return ("cls", b)
+            if b in names:
+                return ("var", names[b])
+            return None
+        return f
+    def raise_amount(b):
+        if b.strip("{} ") == "":
+            return 0
+        m = re.search(r"\.\s*raise\s*\(\s*(\d+)\s*\)", b)
+        return int(m.group(1)) if m else None
+    valc = lambda v: cls(v[1]) if v[0] == "cls" else v[1]
+    t = decision_table(im, "resolve_levels", generic, r"\(\s*levels\[i\]\.is_rtl\(\)\s*,\s*processing_classes\[i\]\s*\)", 2, raise_amount)
+    lines.append(emit_table("i12_amount", [("rtl", "Bool"), ("c", C)], ["rtl", "c"], t, "Nat",
+                            "I1/I2: by how much `resolve_levels` raises the level of a character of class `c` (`match (levels[i].is_rtl(), processing_classes[i])`)", str))
+    t = decision_table(im, "resolve_neutral", generic, r"\(\s*prev_class\s*,\s*next_class\s*\)", 2, class_or({"e": "e"}))
+    lines.append(emit_table("n12_class", [("prev", C), ("next", C), ("e", C)], ["prev", "next"], t, C,
+                            "N1/N2: the class given to a run of neutrals between `prev` and `next` (`match (prev_class, next_class)` in `resolve_neutral`)", valc))
+    t = decision_table(im, "resolve_weak", generic, r"\(\s*prev_class_before_w4\s*,\s*processing_classes\[i\]\s*,\s*next_class\s*\)", 3, class_or({}))
+    lines.append(emit_table("w46_class", [("prev", C), ("c", C), ("next", C)], ["prev", "c", "next"], t, C,
+                            "W4 / W6 (separators): the class an ES or CS takes (`match (prev_class_before_w4, processing_classes[i], next_class)` in `resolve_weak`)", valc))
+    t = decision_table(im, "resolve_weak", generic, r"prev_class_before_w1", 1, class_or({"prev_class_before_w1": "prev"}))
+    lines.append(emit_table("w1_class", [("prev", C)], ["prev"], t, C,
+                            "W1: the class an NSM takes after a character of class `prev` (`match prev_class_before_w1` in `resolve_weak`)", valc))
+    # explicit.rs: the override status pushed for an initiator, and what a status does to a class (X4-X6a)
+    m = re.search(r"enum\s+OverrideStatus\s*\{([^}]*)\}", ex)
+    if not m:
+        die("explicit.rs: enum OverrideStatus not found")
+    variants = [v.strip() for v in m.group(1).split(",") if v.strip()]
+    if not all(re.fullmatch(r"[A-Za-z_][A-Za-z0-9_]*", v) for v in variants) or len(variants) < 2:
+        die("explicit.rs: enum OverrideStatus has variants with data")
+    lines.append("/-- `enum OverrideStatus` of explicit.rs -/")
+    lines.append("inductive OverrideStatus where\n%s\n  deriving DecidableEq, Repr\n" % "\n".join("  | " + v for v in variants))
+    def status_value(b):
+        b = b.strip("{} ;").split("::")[-1].strip()
+        return b if b in variants else None
+    t = decision_table(ex, "compute", generic, r"original_classes\[i\]", 1, status_value, prefix_re=r"status\s*:\s*")
+    lines.append(emit_table("override_status", [("c", C)], ["c"], t, "OverrideStatus",
+                            "X2-X5c: the override status pushed with the level of an initiator of class `c` (`status: match original_classes[i]` in `explicit::compute`)",
+                            lambda v: "OverrideStatus." + v))
+    def assigned_class(b):
+        b = b.strip("{} ;")
+        if b == "":
+            return ("var", "c")
+        mm = re.fullmatch(r"processing_classes\s*\[\s*i\s*\]\s*=\s*(?:BidiClass::)?(\w+)", b)
+        return ("cls", mm.group(1)) if mm and mm.group(1) in CLASSES else None
+    t = decision_table(ex, "compute", generic, r"last\.status", 1, assigned_class, extra_atoms=tuple(variants), every=True)
+    lines.append(emit_table("apply_override", [("st", "OverrideStatus"), ("c", C)], ["st"], t, C,
+                            "X5a-X6a: the processing class of a character of class `c` under the status on top of the stack (the three identical `match last.status` of `explicit::compute`)", valc))
+    # the class sets of the `matches!(…, A | B | …)` tests inside isolating_run_sequences and explicit::compute
+    def matches_sets(src, fn_name):
+        body = find_fn(src, fn_name, generic)
+        out = []
+        for m in re.finditer(r"matches!\s*\(", body):
+            d, k = 1, m.end()
+            while k < len(body) and d > 0:
+                d += body[k] in "([{"
+                d -= body[k] in ")]}"
+                k += 1
+            args = split_top(body[m.end():k - 1], ",")
+            if len(args) != 2:
+                continue
+            names = [x.strip().split("::")[-1] for x in args[1].split("|")]
+            if all(n in CLASSES for n in names):
+                out.append(names)
+        return out
+    pr = strip_comments(read("src/prepare.rs"))
+    for lean, src, fn in (("matches_isolating_run_sequences", pr, "isolating_run_sequences"), ("matches_explicit_compute", ex, "compute")):
+        sets = matches_sets(src, fn)
+        lines.append("/-- the class sets of the `matches!(…)` tests on a class inside `%s`, in source order -/" % fn)
+        lines.append("def %s : List (List UBidi.BidiClass) :=\n  [%s]\n" % (lean, ", ".join("[" + ", ".join(cls(c) for c in a) + "]" for a in sets)))
     lines.append("end UBidi.Gen.Code")
     text = "\n".join(lines) + "\n"
     old = open(OUT, encoding="utf-8").read() if os.path.exists(OUT) else None
